@@ -189,6 +189,9 @@ type attr struct {
 	// split reports that a template node was found inside or directly after the attribute
 	// name, followed by further name characters: name is not the name a browser sees.
 	split bool
+	// afterAction reports that an action has been seen in the value of the attribute: what
+	// follows, static text or another action, makes the value a partial substitution.
+	afterAction bool
 }
 
 // eq reports whether a and b have the same name. All other fields are ignored.
